@@ -146,7 +146,7 @@ struct E2 : Engine {
 			J o = J::obj(); unsigned x = r.below(100);
 			if(ctx && (gen_page_open ? r.below(100) < 30 : r.below(100) < 12)){   // whole pages: ask for one; once a request has missed its page it builds and stores it a few operations later
 				if(gen_page_open){ o["op"] = "pstore"; int d = pick_dl(); o["dl"] = r.below(3)==0 ? -1 : (d < 0 ? 0 : d); o["vlen"] = 1 + (int)r.below(300); gen_page_open = false; }
-				else { o["op"] = "pfetch"; o["k"] = (int)r.below(std::min(nkeys,2)); gen_page_open = true; }
+				else { o["op"] = "pfetch"; o["k"] = (int)r.below(std::min(nkeys,2)); gen_page_open = true; if(r.below(3) == 0) o["cont"] = 1; }   /* cont: the request has already consulted the cache (frames, data, triggers of its own) when it asks for the whole page */
 				ops.push(o); continue; }
 			if(iface){
 				if(x < 22){ o["op"] = "fstore"; o["k"] = (int)r.below(nkeys); pick_trigs(o); int d = pick_dl(); o["dl"] = r.below(5)==0 ? -1 : (d < 0 ? 0 : d); o["vlen"] = pick_vlen(); o["nt"] = r.below(5) == 0; }
@@ -158,7 +158,7 @@ struct E2 : Engine {
 				else if(x < 75){ o["op"] = "reset"; }
 				else if(x < 77){ o["op"] = "new_req"; }
 				else if(x < 80 && !ctx){ o["op"] = "new_req"; }
-				else if(x < 80){ if(r.below(2)){ o["op"] = "pfetch"; o["k"] = (int)r.below(nkeys); } else { o["op"] = "pstore"; int d = pick_dl(); o["dl"] = r.below(5)==0 ? -1 : (d < 0 ? 0 : d); o["vlen"] = 1 + (int)r.below(300); } }
+				else if(x < 80){ if(r.below(2)){ o["op"] = "pfetch"; o["k"] = (int)r.below(nkeys); if(r.below(3) == 0) o["cont"] = 1; } else { o["op"] = "pstore"; int d = pick_dl(); o["dl"] = r.below(5)==0 ? -1 : (d < 0 ? 0 : d); o["vlen"] = 1 + (int)r.below(300); } }
 				else if(x < 87){ o["op"] = "rise"; o["t"] = r.below(3) == 0 ? 100 + (int)r.below(nkeys) : (ntrig ? (int)r.below(ntrig) : 100); }
 				else if(x < 94){ o["op"] = "tick"; o["s"] = 1 + (int)r.below(6); }
 				else if(x < 95){ o["op"] = "clear"; }
@@ -310,10 +310,22 @@ struct E2 : Engine {
 		if(c.res->ok) check_stats(c);
 	}
 
+	/* process-shared cache: taking every entry out one by one (remove, no clear()) gives all their memory back as well - names of keys and triggers included */
+	static void final_drain(Ctx &c,int nkeys_hint){
+		if(!c.process || !c.have_baseline || !c.res->ok) return;
+		std::set<std::string> keys; for(auto &m:c.cands) for(auto &kv:m.m) keys.insert(kv.first); for(int i=0;i<nkeys_hint;i++) keys.insert(key_name(i));
+		for(auto &k:keys) c.cache->remove(k);
+		unsigned kk = 0,tt = 0; c.cache->stats(kk,tt); if(kk || tt) return;   /* what stats() has to report is checked op by op elsewhere */
+		size_t av = cppcms::impl::process_settings::process_memory->available(); c.cnt["drain_leak_checks"]++;
+		/* unlike clear(), remove() leaves the two hash tables (keys, triggers) as large as they have grown: at most 2*(1+entries) buckets of 16 bytes each, rounded up by the buddy allocator */
+		size_t slack = 1024; { size_t bytes = 32 * (1 + keys.size() + 16) + 16, p2 = 64; while(p2 < bytes) p2 *= 2; slack += 2 * p2; }
+		if(av + slack < c.baseline_avail) c.fail("shared-memory-leak","after every entry was removed one by one (stats() reports an empty cache) " + std::to_string(av) + " bytes of shared memory are free, " + std::to_string(c.baseline_avail) + " were free when the cache was created (" + std::to_string(c.baseline_avail - av) + " bytes not given back, the grown hash tables account for at most " + std::to_string(slack) + ")");
+	}
+
 	RunResult run(const J &plan) override {
 		RunResult res; Ctx c; c.res = &res;
 		simk::Params sp; sp.sched_seed = 1; sp.fault_seed = (uint64_t)plan.geti("fault_seed",1); sp.tick_us = 0; sp.text_trace = plan.geti("text_trace");
-		simk::begin(sp);
+		simk::begin(sp); simk::lock_audit(false);
 		c.process = plan.gets("backend") == "process"; c.c08 = plan.gets("prop") == "C08";
 		{ memset(g_key_pad,0,sizeof(g_key_pad)); const J &kp = plan.get("key_pad"); for(size_t i=0;i<kp.size() && i<64;i++) g_key_pad[i] = (int)std::max<int64_t>(0,std::min<int64_t>(kp.a[i].as_int(),4<<20)); }
 		g_colliding = plan.geti("coll") != 0;
@@ -341,7 +353,7 @@ struct E2 : Engine {
 				if(worker == 0){ ::close(p2c[1]); ::close(c2p[0]); twoproc::serve(*srv,p2c[0],c2p[1]); _exit(0); }
 				::close(p2c[0]); ::close(c2p[1]); remote.to = p2c[1]; remote.from = c2p[0]; c.cnt["two_process_runs"]++;
 				c.cache = srv->cache_pool().get(); c.cache->clear(); }
-			else if(c.process){ size_t mem = (size_t)std::max<int64_t>(512,plan.geti("mem_kb",512)) * 1024; c.cache = cppcms::impl::process_cache_factory(mem,limit); do_clear(c); c.max_block0 = cppcms::impl::process_settings::process_memory->max_available(); }
+			else if(c.process){ size_t mem = (size_t)std::max<int64_t>(512,plan.geti("mem_kb",512)) * 1024; c.cache = cppcms::impl::process_cache_factory(mem,limit); simk::lock_audit(true); do_clear(c); c.max_block0 = cppcms::impl::process_settings::process_memory->max_available(); }
 			else c.cache = cppcms::impl::thread_cache_factory(limit);
 			auto madd = [&](const std::string &t){ for(auto &s:mrecs) s.insert(t); mtrig.insert(t); };
 			for(size_t i=0;i<ops.size() && res.ok;i++){
@@ -386,10 +398,12 @@ struct E2 : Engine {
 					else if(op == "reset"){ ci->reset(); mtrig.clear(); }
 					else if(op == "new_req" || ((op == "pfetch" || op == "pstore") && !ctx)){ recs.clear(); mrecs.clear(); mtrig.clear(); page_open = false; if(ctx){ app->new_request(); ci = &app->cache(); } else { ci_own.reset(new cppcms::cache_interface(*srv)); ci = ci_own.get(); } }
 					else if(op == "pfetch"){   // a new request asks for a whole page
-						recs.clear(); mrecs.clear(); mtrig.clear(); app->new_request(); ci = &app->cache(); std::string pk = "_U:" + key;
+						if(o.geti("cont") && !page_open && recs.empty()){ c.cnt["pfetch_after_other_cache_use"]++; if(!mtrig.empty()) c.cnt["pfetch_with_triggers_recorded_before"]++; }   /* same request goes on: what it has recorded so far stays recorded */
+						else { recs.clear(); mrecs.clear(); mtrig.clear(); app->new_request(); ci = &app->cache(); }
+						std::string pk = "_U:" + key;
 						bool hit = ci->fetch_page(key); const CacheEntry *e = nullptr; bool mhit = c.M().fetch(pk,c.now(),&e); c.cnt["pfetch"]++;
 						if(hit != mhit) c.fail(hit ? "stale-hit" : "lost-entry","fetch_page(" + key + ") " + std::string(hit ? "hit" : "missed") + ", model " + (mhit ? "hit" : "miss"));
-						else if(hit){ std::string got = app->body(); if(fpv(got) != e->val) c.fail("wrong-value","fetch_page(" + key + ") delivered " + showv(got) + " expected " + showv(e->val)); c.cnt["pfetch_hit"]++; app->new_request(); ci = &app->cache(); page_open = false; }
+						else if(hit){ std::string got = app->body(); if(fpv(got) != e->val) c.fail("wrong-value","fetch_page(" + key + ") delivered " + showv(got) + " expected " + showv(e->val)); c.cnt["pfetch_hit"]++; recs.clear(); mrecs.clear(); mtrig.clear(); app->new_request(); ci = &app->cache(); page_open = false; }
 						else { page_open = true; page_key = key; } }
 					else if(op == "pstore"){   // the request that missed its page has built it (around whatever frames it fetched or stored) and stores it
 						if(page_open){ std::string val = make_val((int)i,(int)std::max<int64_t>(1,std::min<int64_t>(vlen,2000))); app->response().out() << val; ci->store_page(page_key,dl);
@@ -402,7 +416,13 @@ struct E2 : Engine {
 				if(getenv("E2_DEBUG2")){ unsigned kk=0,tt=0; c.cache->stats(kk,tt); fprintf(stderr,"op#%zu %s k=%d -> keys=%u trig=%u cands=%zu avail=%zu\n",i,op.c_str(),k,kk,tt,c.cands.size(),c.process?cppcms::impl::process_settings::process_memory->max_available():0); }
 				if(c.inconclusive) break;
 			}
+			if(c.process && res.ok){   /* where do the locks of the process-shared cache live? a lock in private memory is a lock of its own in every worker process after fork() */
+				std::vector<const void*> locks = simk::audited_locks(); simk::lock_audit(false); c.cnt["process_shared_locks_located"] += (int64_t)locks.size();
+				if(!locks.empty()){ std::ifstream maps("/proc/self/maps"); std::string line; std::vector<std::pair<std::pair<uintptr_t,uintptr_t>,bool>> rg; while(std::getline(maps,line)){ unsigned long a = 0,b = 0; char perms[8] = {0}; if(sscanf(line.c_str(),"%lx-%lx %7s",&a,&b,perms) == 3) rg.push_back({{a,b},perms[3] == 's'}); }
+					for(const void *l:locks){ uintptr_t x = (uintptr_t)l; bool found = false,shared = false; for(auto &g:rg) if(x >= g.first.first && x < g.first.second){ found = true; shared = g.second; }
+						if(found && !shared){ char b[64]; snprintf(b,sizeof(b),"%p",l); res.fail("process-shared-lock-in-private-memory",std::string("the process-shared cache locks a mutex / rwlock at ") + b + " which lies in a private mapping: after fork() every worker process locks a copy of its own and nothing orders their operations on the shared segment"); break; } } } }
 			if(res.ok && !c.inconclusive) final_sweep(c,std::min(maxk+1,64));
+			if(res.ok && !c.inconclusive) final_drain(c,std::min(maxk+1,64));
 			if(fork2){ if(remote.dead) res.fail("worker-process-died","the second worker process stopped answering"); remote.quit(); int st = 0; if(worker > 0) waitpid(worker,&st,0); if(res.ok && !(WIFEXITED(st) && WEXITSTATUS(st) == 0)) res.fail("worker-process-died","the second worker process ended with status " + std::to_string(st)); ::close(remote.to); ::close(remote.from); }
 			recs.clear(); ci_own.reset(); ci = nullptr; app.reset(); c.cache = 0; srv.reset();
 		}
